@@ -95,15 +95,22 @@ Refusals == failed \in {"", "NodeNotInDfsOrder", "OverCompleteTree", "InvalidMer
 PrefixClosed == failed = "" => \A k \in DOMAIN branch : k < Len(branch) \/ branch[k] # NoneNode
 
 ---------------------------------------------------------------------------
-(* Huffman construction: repeatedly merge the two lightest nodes; depths of the leaves *)
+(* Huffman construction: repeatedly merge the two lightest nodes; depths of the leaves.                  *)
+(* Weights are u32 in the API and their sums exceed 32 bits: a weight is a pair <<hi, lo>> = hi * 2^16 + lo. *)
+WNorm(p) == << p[1] + (p[2] \div 65536), p[2] % 65536 >>
+WAdd(a, b) == WNorm(<< a[1] + b[1], a[2] + b[2] >>)
+WMul(a, d) == WNorm(<< a[1] * d, a[2] * d >>)
+WLe(a, b) == a[1] < b[1] \/ (a[1] = b[1] /\ a[2] <= b[2])
+W(k) == << 0, k >>
+WMax == << 65535, 65535 >>          \* u32::MAX
 RECURSIVE Huff(_)
 \* nodes: set of [w, leaves: set of <<id, depth>>]; ties broken arbitrarily (CHOOSE): only properties that hold for every tie-break are stated
 Huff(nodes) ==
   IF Cardinality(nodes) <= 1 THEN nodes
-  ELSE LET a == CHOOSE x \in nodes : \A y \in nodes : x.w <= y.w
+  ELSE LET a == CHOOSE x \in nodes : \A y \in nodes : WLe(x.w, y.w)
            rest == nodes \ {a}
-           b == CHOOSE x \in rest : \A y \in rest : x.w <= y.w
-           m == [w |-> a.w + b.w, leaves |-> { <<l[1], l[2] + 1>> : l \in a.leaves \cup b.leaves }]
+           b == CHOOSE x \in rest : \A y \in rest : WLe(x.w, y.w)
+           m == [w |-> WAdd(a.w, b.w), leaves |-> { <<l[1], l[2] + 1>> : l \in a.leaves \cup b.leaves }]
        IN Huff((rest \ {b}) \cup {m})
 HuffDepths(ws) == LET r == Huff({ [w |-> ws[i], leaves |-> {<<i, 0>>}] : i \in DOMAIN ws }) IN (CHOOSE x \in r : TRUE).leaves
 =============================================================================
